@@ -220,10 +220,10 @@ type c17Dump struct {
 
 var c17PairTables = []string{"EntitiesHtml", "TextRevHtml", "AttrRevHtml", "EntitiesXml", "TextRevXml", "AttrRevXml", "ShortenColorHex", "ShortenColorName",
 	"TagTraits", "AttrTraits", "HashNames.html", "HashNames.css", "HashNames.svg", "Html5Entities", "CssColors"}
-var c17NameTables = []string{"JsMimetypes", "OptionalZeroDimension", "SvgColorAttrs"}
-var c17Classes = []string{"booleanAttrs", "urlAttrs", "rawJustified", "wsInsignificant", "jsMimeTypes", "svgColorAttrs", "lengthUnits", "angleUnits"}
+var c17NameTables = []string{"JsMimetypes", "OptionalZeroDimension", "SvgColorAttrs", "ZeroAngleFuncs", "AngleDimension"}
+var c17Classes = []string{"booleanAttrs", "urlAttrs", "rawJustified", "wsInsignificant", "jsMimeTypes", "svgColorAttrs", "lengthUnits", "angleUnits", "zeroAngleFunctions"}
 var c17Bads = []string{"entitiesHtml", "textRevHtml", "attrRevHtml", "textRevHtmlCovers", "entitiesXml", "textRevXml", "attrRevXml", "colorHex", "colorName", "boolAttrs", "urlAttrs",
-	"rawTags", "blockTags", "jsMimetypes", "zeroUnits", "svgColorAttrs", "hashNames.html", "hashNames.css", "hashNames.svg"}
+	"rawTags", "blockTags", "jsMimetypes", "zeroUnits", "zeroAngleFuncs", "angleDimension", "zeroAngleGuard", "svgColorAttrs", "hashNames.html", "hashNames.css", "hashNames.svg"}
 
 func c17Load() (*c17Dump, error) {
 	lines := []string{}
@@ -572,6 +572,43 @@ func c17Behaviour(c *Ctx, d *c17Dump, x *c17M) {
 			st.Tag("zeroUnit=" + strconv.FormatBool(zu[n]))
 			if got != zu[n] {
 				diff("optionalZeroDimension["+n+"]: table says "+strconv.FormatBool(zu[n]), in, out, "")
+			}
+		}
+	}
+	// zeroAngleFuncs: in table ⇔ `0deg` loses its unit inside the function; angleDimension: in table ⇔ (for a unit of
+	// optionalZeroDimension) the zero keeps its unit at the top level of a declaration
+	zf := map[string]bool{}
+	cand = map[string]bool{"translate": true, "scale": true, "hsl": true, "calc": true, "image-set": true, "var": true}
+	for _, n := range d.names["ZeroAngleFuncs"] {
+		zf[n] = true
+		cand[n] = true
+	}
+	for n := range d.class["zeroAngleFunctions"] {
+		cand[n] = true
+	}
+	for _, n := range c17Sorted(cand) {
+		in := "a{x:" + n + "(0deg)}"
+		if out, ok := run("text/css", in); ok {
+			got := out == "a{x:"+n+"(0)}"
+			st.Count("zeroAngleFuncs "+n, got)
+			st.Tag("zeroAngleFunc=" + strconv.FormatBool(zf[n]))
+			if got != zf[n] {
+				diff("zeroAngleFuncs["+n+"]: table says "+strconv.FormatBool(zf[n]), in, out, "")
+			}
+		}
+	}
+	ad := map[string]bool{}
+	for _, n := range d.names["AngleDimension"] {
+		ad[n] = true
+	}
+	for _, n := range d.names["OptionalZeroDimension"] {
+		in := "a{x:0" + n + "}"
+		if out, ok := run("text/css", in); ok {
+			kept := out == in
+			st.Count("angleDimension "+n, kept)
+			st.Tag("angleDimension=" + strconv.FormatBool(ad[n]))
+			if kept != ad[n] {
+				diff("angleDimension["+n+"]: table says "+strconv.FormatBool(ad[n])+" (unit kept at the top level)", in, out, "")
 			}
 		}
 	}
@@ -1438,6 +1475,19 @@ func c17Search(c *Ctx, d *c17Dump, x *c17M) {
 					out := run("text/css", in)
 					if !strings.Contains(out, "0"+key) && !d.class["lengthUnits"][key] && !d.class["angleUnits"][key] {
 						fail("optionalZeroDimension["+key+"]: the unit is dropped from a zero value but `"+key+"` is neither a length nor an angle unit", in, out, "")
+					}
+				}
+			case "zeroAngleFuncs":
+				in := "a{x:" + key + "(0deg)}"
+				out := run("text/css", in)
+				if !strings.Contains(out, "0deg") && !d.class["zeroAngleFunctions"][key] {
+					fail("zeroAngleFuncs["+key+"]: a zero angle loses its unit inside `"+key+"()`, whose grammar does not admit a bare 0 for an <angle>", in, out, "")
+				}
+			case "zeroAngleGuard", "angleDimension":
+				for _, in := range []string{"a{rotate:0" + key + "}", "a{font-style:oblique 0" + key + "}", "a{x:0" + key + "}"} {
+					out := run("text/css", in)
+					if !strings.Contains(out, "0"+key) && d.class["angleUnits"][key] {
+						fail("angleDimension: the angle unit `"+key+"` is dropped from a zero outside the functions that admit a bare 0 for an <angle>", in, out, "")
 					}
 				}
 			case "svgColorAttrs":
